@@ -387,6 +387,7 @@ type mixOpts struct {
 	withOps    float64
 	consumers  []string
 	burst      float64
+	bigBurst   bool
 }
 
 func genMix(prop string, seed uint64, run int, o mixOpts) *Scenario {
@@ -492,10 +493,17 @@ func genMix(prop string, seed uint64, run int, o mixOpts) *Scenario {
 	if g.chance(o.burst) {
 		// a burst larger than most channel buffers
 		d := g.pick(dirs)
-		for i, n := 0, 70+g.r.Intn(140); i < n; i++ {
+		nb := 70 + g.r.Intn(140)
+		if o.bigBurst && g.chance(0.2) {
+			// thousands of notifications in the queue at once: one read returns as many as fit in the 64 KiB buffer
+			nb = 2100 + g.r.Intn(600)
+			sc.Cfg.Weights = map[string]float64{"reader": 0.001, "consumer": 1}
+			sc.Cfg.QueueLimit = 0
+		}
+		for i, n := 0, nb; i < n; i++ {
 			wt[0] = append(wt[0], Op{K: OpCreate, P: fmt.Sprintf("%s/burst%d", d, i)})
 		}
-		sc.Cfg.MaxSteps = 60000
+		sc.Cfg.MaxSteps = 60000 + nb*20
 	}
 	for k := range wt {
 		sc.Tasks = append(sc.Tasks, TaskScript{Name: fmt.Sprintf("world%d", k), Role: "world", Ops: wt[k]})
